@@ -836,15 +836,21 @@ impl<'a> Searcher<'a> {
         }
         
         if let Some(ref _function) = column_expr.function {
-            let result =
+            let mut result =
                 self.get_function_value(entry, file_info, file_map, buffer_data, column_expr);
+            if column_expr.minus {
+                result = Self::negate_value(result);
+            }
             file_map.insert(column_expr_str, result.to_string());
             return result;
         }
 
         if let Some(ref field) = column_expr.field {
             if entry.is_some() {
-                let result = self.get_field_value(entry.unwrap(), file_info, field);
+                let mut result = self.get_field_value(entry.unwrap(), file_info, field);
+                if column_expr.minus {
+                    result = Self::negate_value(result);
+                }
                 file_map.insert(column_expr_str, result.to_string());
                 return result;
             } else if let Some(val) = file_map.get(&field.to_string()) {
@@ -881,6 +887,22 @@ impl<'a> Searcher<'a> {
         }
 
         result
+    }
+
+    /// Applies a leading minus to a numeric column or function value.
+    fn negate_value(value: Variant) -> Variant {
+        if value.to_string().is_empty() {
+            return value;
+        }
+
+        match value.get_type() {
+            VariantType::Int => Variant::from_int(-value.to_int()),
+            VariantType::Float => Variant::from_float(-value.to_float()),
+            _ => match value.to_string().parse::<f64>() {
+                Ok(number) => Variant::from_float(-number),
+                _ => value,
+            },
+        }
     }
 
     fn get_function_value(
